@@ -15,6 +15,9 @@
 (*    or accepted and lost; the disconnection that is then due comes once  *)
 (*    the round is over - after a lost one possibly only after further     *)
 (*    requests of the driver (an environment deployed in between);         *)
+(*  - the RECONCILE call of a subscription may be held at the master while *)
+(*    the driver asks for an environment: the answer is delivered while    *)
+(*    that deployment waits for its offers (REVIVE held);                  *)
 (*  - while a teardown is held at its KILL calls (or parked between the    *)
 (*    read and the write-back of the roster) the driver may create another *)
 (*    environment; the teardown goes on when that request is over.         *)
@@ -29,13 +32,15 @@ VARIABLES tick, fstart, whole,  \* whole: no update of the last RECONCILE answer
           flav,                 \* how the last lost KILL call was lost: "" | "lost" | "refused" | "refusedmany" (others alive)
           ovl,                  \* 0 | 1: a deployment wrote the roster while a teardown was held | 2: ... and the stream
                                 \* was dropped after that teardown was over
-          owdep                 \* the stream was dropped while a KILL was lost AND an environment had been deployed since
-gvars == <<vars, tick, fstart, whole, flav, ovl, owdep>>
-Keep == flav' = flav /\ ovl' = ovl /\ owdep' = owdep
+          owdep,                \* the stream was dropped while a KILL was lost AND an environment had been deployed since
+          dda                   \* an environment was requested while the whole answer to a RECONCILE call was still pending
+gvars == <<vars, tick, fstart, whole, flav, ovl, owdep, dda>>
+Keep == flav' = flav /\ ovl' = ovl /\ owdep' = owdep /\ dda' = dda
 Tk == tick' = tick + 1 /\ fstart' = fstart /\ whole' = whole /\ Keep
 TkW(b) == tick' = tick + 1 /\ fstart' = fstart /\ whole' = b /\ Keep
-TkF == tick' = tick + 1 /\ fstart' \in {tick + g : g \in FaultGaps} /\ whole' = whole
+TkF == tick' = tick + 1 /\ fstart' \in {tick + g : g \in FaultGaps} /\ whole' = whole /\ dda' = dda
 
+Settled == rq = {} /\ rcv = {}
 Quiet == up /\ conn = "up" /\ rq = {} /\ rcv = {} /\ kq = {}
 NoneTransient == \A e \in Envs : env[e] \notin Transient
 \* (a KILL accepted and lost is noticed by nobody: the driver goes on, the disconnection that is due comes when it likes;
@@ -65,21 +70,26 @@ G_Reconcile == Reconcile /\ TkW(TRUE)
 G_ReconcileUpdate(t) == ReconcileUpdate(t) /\ TkW(FALSE)
 G_KillOnReconcile(t) == KillOnReconcile(t) /\ Tk
 G_KillArrives(t) == KillArrives(t) /\ Tk
-TkL(f) == tick' = tick + 1 /\ fstart' = fstart /\ whole' = whole /\ flav' = f /\ ovl' = ovl /\ owdep' = owdep
+TkL(f) == tick' = tick + 1 /\ fstart' = fstart /\ whole' = whole /\ flav' = f /\ ovl' = ovl /\ owdep' = owdep /\ dda' = dda
 G_KillLost(t) == NoneTransient /\ ~owed /\ KillLost(t) /\ TkL("lost")
 G_KillRefused(t) ==
   /\ NoneTransient /\ ~owed /\ KillRefused(t)
   /\ TkL(IF Cardinality({x \in Tasks : Alive(x)}) >= 2 THEN "refusedmany" ELSE "refused")
 G_RefreshOnReconcile(t) == RefreshOnReconcile(t) /\ Tk
 
-G_NewEnv(e) == (DriverFree \/ (Quiet /\ ~owed /\ TeardownHeld)) /\ NewEnv(e) /\ Tk
-G_Launch(e, S) == Launch(e, S) /\ Tk
+\* (the RECONCILE call of a subscription held at the master: the driver may ask for an environment before the answer comes;
+\* the answer is then delivered while that deployment waits for its offers, before anything is launched)
+AnswerHeld == up /\ conn = "up" /\ whole /\ rq # {} /\ rcv = {} /\ kq = {} /\ NoneTransient /\ ~owed
+G_NewEnv(e) ==
+  /\ (DriverFree \/ (Quiet /\ ~owed /\ TeardownHeld) \/ AnswerHeld) /\ NewEnv(e)
+  /\ tick' = tick + 1 /\ fstart' = fstart /\ whole' = whole /\ flav' = flav /\ ovl' = ovl /\ owdep' = owdep
+  /\ dda' = (dda \/ AnswerHeld)
+G_Launch(e, S) == Settled /\ Launch(e, S) /\ Tk
 G_Lock(e) == Lock(e) /\ Tk
 \* (a deployment parked by the driver, like a report held back by it, is let go only once recovery has settled)
-Settled == rq = {} /\ rcv = {}
 G_RosterAppend(e) ==
   /\ (conn # "up" \/ Settled) /\ RosterAppend(e)
-  /\ tick' = tick + 1 /\ fstart' = fstart /\ whole' = whole /\ flav' = flav /\ owdep' = owdep
+  /\ tick' = tick + 1 /\ fstart' = fstart /\ whole' = whole /\ flav' = flav /\ owdep' = owdep /\ dda' = dda
   /\ ovl' = IF \E o \in Envs \ {e} : env[o] \in {"rewriting", "killing"} THEN 1 ELSE ovl
 \* the agent's report is held back until the roster is written and the event stream can carry it (a report
 \* sent while the stream is down is lost; Restart does not model what the core has learned), or the core is gone
@@ -98,6 +108,7 @@ G_EnvError(e) == EnvError(e) /\ Tk
 \* kill: recovery settled, or while the KILL calls of a reconciliation are being sent
 G_Crash ==
   /\ tick >= fstart /\ up /\ conn = "up" /\ rq = {} /\ FaultEnvOK("crash") /\ ((rcv = {} /\ kq = {}) \/ NoneTransient) /\ Something
+  /\ ~(\E e \in Envs : env[e] = "deploying" /\ (rq # {} \/ rcv # {} \/ kq # {}))
   /\ Crash /\ TkF /\ flav' = flav /\ ovl' = 0 /\ owdep' = FALSE
 \* drop: recovery settled, or while the whole answer to a RECONCILE call is still on its way (it is lost)
 AnswerPending == rq # {} /\ whole /\ NoneTransient
@@ -116,7 +127,7 @@ GenNext ==
                      \/ G_Release(e) \/ G_RosterRemove(e) \/ G_RosterRead(e) \/ G_RosterWrite(e) \/ G_KillSend(e) \/ G_EnvError(e)
   \/ G_Crash \/ G_DropConnection
 
-GenInit == Init /\ tick = 0 /\ fstart \in FaultStarts /\ whole = FALSE /\ flav = "" /\ ovl = 0 /\ owdep = FALSE
+GenInit == Init /\ tick = 0 /\ fstart \in FaultStarts /\ whole = FALSE /\ flav = "" /\ ovl = 0 /\ owdep = FALSE /\ dda = FALSE
 GenSpec == GenInit /\ [][GenNext]_gvars
 TickBound == tick < 48
 
@@ -130,6 +141,10 @@ ProbeRefusedKill == ~(flav = "refusedmany" /\ life >= 2 /\ Recovered /\ AllDead)
 \* leftovers, a KILL accepted and lost, an environment deployed by the new life, only then the reconnection: the
 \* leftover is reported again (the reconciliation is about all the tasks of the framework, not about the roster) and killed
 ProbeLostKillDeployed == ~(owdep /\ life >= 2 /\ Recovered /\ \A t \in Tasks : Alive(t) => Owned(t))
+\* leftovers, the new life asked for an environment before the reconciliation answer comes: the answer is handled while
+\* the deployment waits for its offers - the leftovers are killed all the same, the environment comes up
+ProbeDeployDuringAnswer ==
+  ~(dda /\ life >= 2 /\ Quiet /\ NoneTransient /\ (\E e \in Envs : env[e] = "configured") /\ \A t \in Tasks : Alive(t) => Owned(t))
 \* a deployment completed while a teardown was held, that teardown over, then a reconnection
 ProbeOverlap == ~(ovl = 2 /\ Recovered /\ \E e \in Envs : env[e] = "configured")
 =============================================================================
